@@ -398,6 +398,15 @@ class FactBase:
                     self.funcs[fn.m] = nf
                     self.byq[q] = [nf if x is fn else x for x in self.byq[q]]
                     self.inlined[q] = d2['inlined']
+        for cls, pred in inline.CLASS_ROOTS.items():
+            for fn in [f_ for f_ in list(self.funcs.values()) if f_.rec == cls]:
+                d2 = inline.inline_root(self, fn, want=pred, members=False)
+                if d2 is not None:
+                    nf = Func(d2)
+                    nf.tu = fn.tu
+                    self.funcs[fn.m] = nf
+                    self.byq[fn.q] = [nf if x is fn else x for x in self.byq[fn.q]]
+                    self.inlined[fn.q] = d2['inlined']
         self.load_s = time.time() - t0
         self._src = {}
         # class hierarchy
